@@ -695,7 +695,7 @@ func genCase(t *rapid.T) Case {
 	// the beacon node returns duties in the order of the request, which is arbitrary
 	perm := rapid.Permutation(c.Duties).Draw(t, "dutyOrder")
 	c.Duties = perm
-	c.Concurrency = rapid.SampledFrom([]int64{1, 2, 4}).Draw(t, "concurrency")
+	c.Concurrency = rapid.SampledFrom([]int64{1, 2, 3, 4}).Draw(t, "concurrency")
 	if mode := rapid.IntRange(0, 9).Draw(t, "sigFailMode"); mode < 4 {
 		// the slot-selection signer refuses some requests: a few (mode 0-1) or about half of the duties
 		for i := range c.Duties {
@@ -864,7 +864,14 @@ func contains(l []uint64, v uint64) bool {
 }
 
 // quiesce waits until the goroutines started by the code under test are gone.
+// quiesceStuck is set by quiesce when it gave up because the goroutines it waits for
+// are provably parked inside the subscriber (same set on four consecutive dumps).
+var quiesceStuck bool
+
 func quiesce(baseline int, parked ...func() int) bool {
+	quiesceStuck = false
+	var lastSet string
+	same := 0
 	// The goroutines waited for are runnable (all doubles answer immediately), so
 	// yielding is enough; sleeping is only the fallback on a heavily loaded machine.
 	deadline := time.Now().Add(30 * time.Second)
@@ -888,6 +895,20 @@ func quiesce(baseline int, parked ...func() int) bool {
 				return false
 			}
 			time.Sleep(50 * time.Microsecond)
+			if spins > 2000 && spins%100 == 0 {
+				if set, stuck := subscriberParked(); stuck && set == lastSet {
+					same++
+					if same >= 3 {
+						quiesceStuck = true
+						return false
+					}
+				} else {
+					lastSet, same = "", 0
+					if stuck {
+						lastSet = set
+					}
+				}
+			}
 		}
 	}
 }
@@ -1090,7 +1111,7 @@ func (e *env) watchedSubscribe(ctx context.Context, s *standardsubscriber.Servic
 	}()
 	var last string
 	same := 0
-	deadline := time.Now().Add(60 * time.Second)
+	deadline := time.Now().Add(30 * time.Second)
 	for spins := 0; ; spins++ {
 		select {
 		case r := <-ch:
@@ -1117,12 +1138,13 @@ func (e *env) watchedSubscribe(ctx context.Context, s *standardsubscriber.Servic
 			}
 		}
 		if time.Now().After(deadline) {
-			// not parked and not finished: a harness problem, reported as such by the caller's quiesce
-			r := <-ch
-			return r.info, r.err, true
+			// neither finished nor structurally confirmed as parked: a harness problem
+			return nil, errWatchdog, true
 		}
 	}
 }
+
+var errWatchdog = fmt.Errorf("harness watchdog: Subscribe neither returned nor is provably parked after 30 s")
 
 // subscriberParked inspects a dump of all goroutines: stuck is true if at least one
 // goroutine is inside the subscriber's calculateSubscriptionInfoForDuty waiting in
@@ -1143,7 +1165,10 @@ func subscriberParked() (string, bool) {
 			header = g[:i]
 		}
 		switch {
-		case strings.Contains(g, "semaphore.(*Weighted).Acquire") && strings.Contains(g, "calculateSubscriptionInfoForDuty") && strings.Contains(header, "[select"):
+		case strings.Contains(g, "semaphore.(*Weighted).Acquire") && strings.Contains(g, "calculateSubscriptionInfoForDuty") &&
+			(strings.Contains(header, "[select") || strings.Contains(header, "[chan receive")):
+			// an ordinary waiter sits in a select; a request for more permits than the semaphore
+			// has waits for the context to end
 			waiters++
 		case strings.Contains(g, "sync.(*WaitGroup).Wait") && strings.Contains(g, "calculateSubscriptionInfo("):
 		default:
@@ -1356,6 +1381,14 @@ func runAndJudge(c *Case) (string, []judgement, stats) {
 		return err.Error(), nil, st
 	}
 	pairs := buildPairs(c, c.Committees, c.Duties)
+	// stuckInController: goroutines started by the controller are provably parked inside
+	// the subscriber (Subscribe will never return): the violation, not a harness problem.
+	stuckInController := func(js *[]judgement, during string) (string, []judgement, stats) {
+		*js = append(*js, judgement{"subscribe-never-returned", fmt.Sprintf("a Subscribe call made by the controller did not return (%s): every goroutine inside the subscriber is parked - the unfinished workers waiting in the subscriber's own semaphore (process concurrency %d) for permits that can never be granted", during, c.concurrency())})
+		cancel() // the semaphore honours the context
+		quiesce(baseline)
+		return "", *js, st
+	}
 	cur := c.currentSlot()
 
 	// statistics for the non-trivial rule
@@ -1422,6 +1455,10 @@ func runAndJudge(c *Case) (string, []judgement, stats) {
 	}
 	for _, epoch := range []uint64{c.Epoch, c.Epoch + 1} {
 		info, err, returned := e.watchedSubscribe(ctx, s1, epoch)
+		if err == errWatchdog {
+			cancel()
+			return err.Error(), nil, st
+		}
 		if !returned {
 			js = append(js, judgement{"subscribe-never-returned", fmt.Sprintf("Subscribe(epoch %d) did not return: all of its goroutines are parked - the unfinished ones waiting for a permit of the subscriber's own semaphore (process concurrency %d) that nobody can release any more", epoch, c.concurrency())})
 			cancel() // releases the parked goroutines (the semaphore honours the context)
@@ -1480,6 +1517,9 @@ func runAndJudge(c *Case) (string, []judgement, stats) {
 		return "cannot construct controller: " + err.Error(), nil, st
 	}
 	if !quiesce(baseline, sub2.heldCount) {
+		if quiesceStuck {
+			return stuckInController(&js, "goroutines of the controller start-up did not finish")
+		}
 		return "goroutines of the controller start-up did not finish", nil, st
 	}
 	if !c.SlowSubmit {
@@ -1502,6 +1542,9 @@ func runAndJudge(c *Case) (string, []judgement, stats) {
 		head(&apiv1.Event{Topic: "head", Data: &apiv1.HeadEvent{Slot: phase0.Slot(cur), Block: mkRoot(1),
 			PreviousDutyDependentRoot: mkRoot(10), CurrentDutyDependentRoot: mkRoot(20)}})
 		if !quiesce(baseline) {
+			if quiesceStuck {
+				return stuckInController(&js, "goroutines of the head event handler did not finish")
+			}
 			return "goroutines of the head event handler did not finish", nil, st
 		}
 		prevRoot, curRoot := byte(10), byte(20)
@@ -1523,6 +1566,9 @@ func runAndJudge(c *Case) (string, []judgement, stats) {
 			ok := quiesce(baseline)
 			subFail.set(false)
 			if !ok {
+				if quiesceStuck {
+					return stuckInController(&js, "goroutines of the duty refresh did not finish")
+				}
 				return "goroutines of the duty refresh did not finish", nil, st
 			}
 			// what was validly subscribed before stays subscribed
@@ -1568,6 +1614,9 @@ func runAndJudge(c *Case) (string, []judgement, stats) {
 			ok := quiesce(baseline)
 			subFail.set(false)
 			if !ok {
+				if quiesceStuck {
+					return stuckInController(&js, "goroutines of the failing re-subscription did not finish")
+				}
 				return "goroutines of the failing re-subscription did not finish", nil, st
 			}
 			for _, epoch := range []uint64{c.Epoch, c.Epoch + 1} {
@@ -1604,6 +1653,9 @@ func runAndJudge(c *Case) (string, []judgement, stats) {
 		spy.mu.Unlock()
 		ctrl.AttestAndScheduleAggregate(ctx, duty)
 		if !quiesce(baseline, sub2.heldCount) {
+			if quiesceStuck {
+				return stuckInController(&js, "goroutines of AttestAndScheduleAggregate did not finish")
+			}
 			return "goroutines of AttestAndScheduleAggregate did not finish", nil, st
 		}
 		// every job set up during the call is run; what reaches the aggregator is what was set up
@@ -1717,6 +1769,9 @@ func runAndJudge(c *Case) (string, []judgement, stats) {
 		// the beacon node answers at last: the subscriptions made at start-up are judged now
 		sub2.releaseAll()
 		if !quiesce(baseline) {
+			if quiesceStuck {
+				return stuckInController(&js, "goroutines of the released subscription requests did not finish")
+			}
 			return "goroutines of the released subscription requests did not finish", nil, st
 		}
 		for _, epoch := range []uint64{c.Epoch, c.Epoch + 1} {
